@@ -359,7 +359,15 @@ fn pred_fn(ws: &[&str]) -> Option<Box<dyn FnMut(&VKey, &VVal) -> bool>> {
 fn exec_unsync<S: std::hash::BuildHasher + Clone>(c: &mut UCache<VKey, VVal, S>, clock: &VerifClock, op: &str) -> String {
     let ws: Vec<&str> = op.split_whitespace().collect();
     let num = |i: usize| -> Option<u64> { ws.get(i).and_then(|s| s.parse().ok()) };
-    match ws.first().copied() {
+    // `xhas`, `xiter`, `xsnap` are `has`, `iter`, `snap` marked as *extra* calls of a
+    // metamorphic pair (C15); they execute exactly like the plain ones.
+    let first = ws.first().copied().map(|w| match w {
+        "xhas" => "has",
+        "xiter" => "iter",
+        "xsnap" => "snap",
+        o => o,
+    });
+    match first {
         Some("ins") if ws.len() == 3 => match (num(1), num(2)) {
             (Some(k), Some(v)) => {
                 c.insert(VKey::new(k), VVal::new(v));
@@ -459,7 +467,15 @@ fn exec_unsync<S: std::hash::BuildHasher + Clone>(c: &mut UCache<VKey, VVal, S>,
 fn exec_sync<S: std::hash::BuildHasher + Clone + Send + Sync + 'static>(c: &SCache<VKey, VVal, S>, clock: &VerifClock, op: &str) -> String {
     let ws: Vec<&str> = op.split_whitespace().collect();
     let num = |i: usize| -> Option<u64> { ws.get(i).and_then(|s| s.parse().ok()) };
-    match ws.first().copied() {
+    // `xhas`, `xiter`, `xsnap` are `has`, `iter`, `snap` marked as *extra* calls of a
+    // metamorphic pair (C15); they execute exactly like the plain ones.
+    let first = ws.first().copied().map(|w| match w {
+        "xhas" => "has",
+        "xiter" => "iter",
+        "xsnap" => "snap",
+        o => o,
+    });
+    match first {
         Some("ins") if ws.len() == 3 => match (num(1), num(2)) {
             (Some(k), Some(v)) => {
                 c.insert(VKey::new(k), VVal::new(v));
